@@ -61,6 +61,37 @@ def multi_validate(ctx, tspec, trace_path, chunk=None, tag="main"):
     return rejects, stats
 
 
+def run_driver(ctx, drv, beh_path, out_path, n_random):
+    """Like pipeline.run_driver for {"overlay_pkg", "run"} drivers, but the in-package test binary is compiled
+    and linked once per check run (go test -c -overlay) and then executed directly for the first execution and
+    every re-execution (each `go test` of felix/dataplane/linux re-links a very large binary)."""
+    pkg = drv["overlay_pkg"]
+    binp = os.path.join(ctx.work, "inpkg-%s.test" % pkg.replace("/", "_"))
+    if not os.path.exists(binp):
+        ov = core.overlay_for(pkg)
+        try:
+            core.run(["go", "test", "-c", "-overlay", ov, "-tags", drv.get("tags", "verif"), "-vet=off", "-o", binp, "./" + pkg],
+                     cwd=core.REPO, env=core.goenv(), timeout=2400)
+        finally:
+            try:
+                os.unlink(ov)
+            except OSError:
+                pass
+    env = core.goenv()
+    env.update({"VERIF_BEH": beh_path or "", "VERIF_OUT": out_path, "VERIF_SEED": str(ctx.seed),
+                "VERIF_N": str(n_random), "VERIF_TIER": ctx.tier})
+    env.update(drv.get("env", {}))
+    if os.path.exists(out_path):
+        os.unlink(out_path)
+    p = core.run([binp, "-test.run", drv.get("run", "^TestVerif"), "-test.count=1", "-test.timeout", "%ds" % drv.get("timeout", 1800)],
+                 cwd=os.path.join(core.REPO, pkg), env=env, timeout=drv.get("timeout", 1800) + 60, check=False)
+    if p.returncode != 0 or "no tests to run" in (p.stdout or ""):
+        raise HarnessError("overlay driver %s failed rc=%d:\n%s" % (pkg, p.returncode, (p.stdout or "")[-4000:]))
+    if not os.path.exists(out_path) or os.path.getsize(out_path) == 0:
+        raise HarnessError("driver produced no trace: %s\n%s" % (out_path, (p.stdout or "")[-2000:]))
+    return p
+
+
 def _generate(ctx, P, quick):
     behs, meta = [], []
     for g in P.get("gens", []):
@@ -128,7 +159,7 @@ def run_legs(ctx, P):
 
     trace_path = os.path.join(ctx.work, "trace.ndjson")
     t0 = time.time()
-    pipeline.run_driver(ctx, driver, beh_path, trace_path, n_random)
+    run_driver(ctx, driver, beh_path, trace_path, n_random)
     log("driver %s: %.1fs" % (driver.get("run", driver.get("cmd")), time.time() - t0))
     if only_trace is not None:
         keep = [(t, l) for t, l in pipeline.split_traces(trace_path) if t == only_trace]
@@ -138,7 +169,7 @@ def run_legs(ctx, P):
         p2 = os.path.join(ctx.work, "trace-%s.ndjson" % tag)
         d2 = dict(driver)
         d2["env"] = dict(driver.get("env", {}), **P.get("rerun_env", {}))
-        pipeline.run_driver(ctx, d2, beh_path, p2, n_random)
+        run_driver(ctx, d2, beh_path, p2, n_random)
         return p2
 
     tspec = dict(P["trace"])
@@ -164,7 +195,7 @@ def run_legs(ctx, P):
                 d2 = dict(driver)
                 d2["env"] = dict(driver.get("env", {}), VERIF_ONLY_FILE=only, **env2)
                 p2 = os.path.join(ctx.work, "trace-rerun%d.ndjson" % attempt)
-                pipeline.run_driver(ctx, d2, beh_path, p2, n_random)
+                run_driver(ctx, d2, beh_path, p2, n_random)
                 rej2, st2 = multi_validate(ctx, tspec, p2, chunk=P.get("chunk"), tag="rerun%d" % attempt)
                 log("re-execution %d (%s): %d of %d reproduced, validation %.1fs" % (
                     attempt, env2, sum(1 for t in pending if t in rej2), len(pending), st2["tlc_wall_s"]))
@@ -250,7 +281,7 @@ def multi_selftest(ctx, P, corruptions, n_random=20):
     tspec = dict(P["trace"])
     tspec.setdefault("specdir", P["specdir"])
     trace_path = os.path.join(ctx.work, "selftest.ndjson")
-    pipeline.run_driver(ctx, P["driver"], None, trace_path, n_random)
+    run_driver(ctx, P["driver"], None, trace_path, n_random)
     rej, _ = multi_validate(ctx, tspec, trace_path, tag="st")
     ok = True
     if rej and not P.get("selftest_allow_rejects"):
